@@ -86,7 +86,11 @@ class Ref:
             self.seen[key] = self.current(key)
 
     def deps(self, key):
-        return self.b.dist_ancestors(key[1]) if isinstance(key, tuple) else self.b.ancestors(key)
+        if isinstance(key, tuple):
+            return self.b.dist_ancestors(key[1])
+        if self.b.decls[key]["kind"] == "pitvar":
+            return self.b.pit_ancestors(key)
+        return self.b.ancestors(key)
 
     def current(self, key):
         return {s: self.ver[s] for s in self.deps(key)}
@@ -107,14 +111,16 @@ def check_coherent(b: gg.Built, model, tag, det):
     for i, d in enumerate(b.decls):
         node = b.value_node(i, model)
         if not node.outdated:
-            require(eq_exact(node.value, b.naive(i, model, memo)), tag + "stale-value-reported-up-to-date",
+            same = close(node.value, b.naive(i, model, memo)) if d["kind"] == "pitvar" else eq_exact(node.value, b.naive(i, model, memo))
+            require(same, tag + "stale-value-reported-up-to-date",
                     lambda: f"decl {i} ({d['kind']} {node.name}): cached {np.asarray(node.value).tolist()} from-scratch {np.asarray(b.naive(i, model, memo)).tolist()}; {det()}")
         o = b.objs[i] if model is b.model else None
         var = model.vars.get(d["name"]) if d["kind"] in gg.VAR_KINDS else None
         if var is not None:
             vv = var.var_value_node
             if not vv.outdated:
-                require(eq_exact(vv.value, b.naive(i, model, memo)), tag + "stale-value-reported-up-to-date", lambda: f"var-value proxy of decl {i}; {det()}")
+                same = close(vv.value, b.naive(i, model, memo)) if d["kind"] == "pitvar" else eq_exact(vv.value, b.naive(i, model, memo))
+                require(same, tag + "stale-value-reported-up-to-date", lambda: f"var-value proxy of decl {i}; {det()}")
             if d["kind"] in gg.WITH_DIST:
                 dn = var.dist_node
                 if not dn.outdated:
@@ -140,6 +146,7 @@ def oracle(case):
     check_coherent(b, model, "build:", det)
     b.reset_counts()
     sources = b.sources()
+    pit_sources = {d["inputs"][0][0] for d in spec if d["kind"] == "pitvar"}
     names = sorted(model.nodes)
     seeds = [i for i, d in enumerate(spec) if d["kind"] == "scalc"]
     saved = []
@@ -151,6 +158,8 @@ def oracle(case):
         # I4: each caching node evaluated at most once per update and only with a reason
         for key, cnt in b.counts.items():
             i = key[1] if isinstance(key, tuple) else key
+            if isinstance(key, tuple) and i in pit_sources:
+                continue        # a PIT node initialises this distribution as well: its constructor calls are not evaluations of the Dist node
             what = f"{'dist of ' if isinstance(key, tuple) else ''}decl {i} ({spec[i]['kind']})"
             require(cnt <= n_updates, "evaluated-more-than-once-in-one-update", lambda: f"{what}: {cnt} evaluations during {kind}; {det()}")
             if cnt >= 1:
